@@ -30,7 +30,27 @@ type Property struct {
 	RequiredObs []string
 	// Race: the child must be the -race build (C19).
 	Race bool
+	// CoverFiles are the library files (suffixes such as "graph/canonical.go")
+	// whose per-function statement coverage, measured by the compiler's
+	// coverage counters during this very run, is written to the evidence.
+	CoverFiles []string
+	// Mechanisms are "file.go:func" entries that must have been executed
+	// (coverage > 0); otherwise the run is INCONCLUSIVE ("hook never reached").
+	Mechanisms []string
 }
+
+// SetMechanisms attaches the observation table of a property (called from
+// init functions after Register).
+func SetMechanisms(id string, files, required []string) {
+	if p, ok := registry[id]; ok {
+		p.CoverFiles = files
+		p.Mechanisms = required
+	} else {
+		pendingMech[id] = [2][]string{files, required}
+	}
+}
+
+var pendingMech = map[string][2][]string{}
 
 var registry = map[string]*Property{}
 
@@ -40,6 +60,9 @@ func Register(p *Property) {
 		panic("duplicate property " + p.ID)
 	}
 	registry[p.ID] = p
+	if m, ok := pendingMech[p.ID]; ok {
+		p.CoverFiles, p.Mechanisms = m[0], m[1]
+	}
 }
 
 // Lookup returns the registered property or an error.
